@@ -201,6 +201,22 @@ prop("C13", "exploration",
                   "schema or any std::exception, never another supported schema",
                   "this is a decision table hosted by the simulator: it contributes the disk states and the second writer, not scheduling power"])
 
+prop("C17", "exploration",
+     quick=[("drift", "fast", 2700)],
+     thorough=[("drift", "fast", 180000)],
+     relevant=["drift_applied"],
+     rule="on each of the 18 schemas (stratified by run index) a library created by this version - verify() must accept it in every state reached - is "
+          "closed, and a second SQLite client applies ONE structural edit: drop/add/rename of a table, view, column or index; change of a "
+          "column's declared type, NOT NULL, default or primary-key membership; change of an index's uniqueness or column list (ordinary DDL "
+          "where SQLite allows it, sqlite_master text edits under writable_schema otherwise; 1.x: in m.db or p.db); edits that SQLite refuses, "
+          "that leave an unreadable schema or that do not change what sqlite_master/table_info/index_list/index_info report are not judged; "
+          "after reload verify() must throw; the undamaged image is then restored and the next edit applied (6-15 per run); non-trivial = at least "
+          "one visible edit applied; distinct = new plan digest reaching a new (schema, edit kind, target) combination",
+     assumptions=["a drift that load_database itself refuses (e.g. Information table gone) counts as reported",
+                  "verify() throwing any std::exception counts as reported (a dropped table makes SQLite itself fail inside the validator); only silent "
+                  "acceptance is a violation; evidence counts database_inconsistency vs other exceptions separately",
+                  "triggers are outside the statement and are not edited; reference libraries under testdata/ are covered by the repository's own test"])
+
 TIER_DEFAULT_SEED = {"quick": 1, "thorough": 20260929}
 
 
